@@ -27,11 +27,11 @@ CHECKS = {
  "C09": ("exploration", "DESIGN.md §4 C09",
          "deterministic simulation: concurrent client tasks on the real stores under a seeded token scheduler (every lock, channel op, FS step is a scheduling point); recorded histories checked for linearizability with porcupine against a sequential mailbox model; crash/deadlock verdicts of the scheduler; quiescence invariants when size evictions fire; race-mode companion (ThreadSanitizer on the seeded schedules) for the data-race clause",
          "Seeded search over interleavings of 2-4 clients (plus a real retention scan) on mem/file stores with and without cap/maxkb, including mailboxes sharing a lock bucket/hash directory. One seed = one exactly replayable schedule; failures are minimised and replay-verified in fresh processes.",
-         "Pre-emption granularity is the instrumented operation. The 'no data race' clause is decided by the race-mode companion C09R (same workloads in a -race binary with the simulator's hand-off hidden from ThreadSanitizer and Inbucket's own synchronisation published; memory store, DESIGN §11.7). The system-level companion C09S runs SMTP, REST and POP3 actors concurrently on shared (pre-filled) mailboxes of both back-ends with an acknowledged-delivery / acknowledged-deletion oracle, and again in race mode (C09SR); REST actors also fetch messages and sources (200 and that message, or 404). At quiescence of size-limited runs everything is purged and the whole capacity must be usable (no accounting drift). Histories are bounded (<=14 ops + prefill) so porcupine stays tractable; its timeouts count as inconclusive."),
+         "Pre-emption granularity is the instrumented operation. The 'no data race' clause is decided by the race-mode companion C09R (same workloads in a -race binary with the simulator's hand-off hidden from ThreadSanitizer and Inbucket's own synchronisation published; memory store, DESIGN §11.7). The system-level companion C09S runs SMTP, REST and POP3 actors concurrently on shared (pre-filled) mailboxes of both back-ends with an acknowledged-delivery / acknowledged-deletion oracle, and again in race mode (C09SR); REST actors also fetch messages, sources and 'latest' (200 and one whole message, or 404). At quiescence of size-limited runs everything is purged and the whole capacity must be usable (no accounting drift). Histories are bounded (<=14 ops + prefill) so porcupine stays tractable; its timeouts count as inconclusive."),
  "C16": ("exploration", "DESIGN.md §4 C16",
          "deterministic simulation: operation histories on the real stores/manager/retention scanner with observers on the public extension host; the seeded scheduler decides when every asynchronous event goroutine runs; exactly-once conservation, non-overlap and causal-order oracles at quiescence",
          "Seeded search over operation histories x limit configurations x schedules of the asynchronous event dispatch. At quiescence every id that ever was listed has exactly one stored event, exactly one deleted event iff gone (whatever removed it), no observer invocation overlaps another, stored precedes deleted, stored events of a mailbox arrive in arrival order.",
-         "In a third of the runs two clients issue the operations pairwise concurrently (conservation and non-overlap clauses only; the order clauses are about sequential operations); sequential file-store histories may have a disk error or stall during one operation (which may then fail; the events must still match what really left the mailbox). One known finding (oversized delivery under maxkb: deleted precedes stored) is listed in known_findings.json and avoided in the main batch by an 'oversize' generator switch; a dedicated batch reproduces it on every run."),
+         "In a third of the runs two clients issue the operations pairwise concurrently (conservation and non-overlap clauses only; the order clauses are about sequential operations); 1/40 of the runs are a volume scenario (300 deliveries and a purge while one observer is held in its first invocation); sequential file-store histories may have a disk error or stall during one operation (which may then fail; the events must still match what really left the mailbox). One known finding (oversized delivery under maxkb: deleted precedes stored) is listed in known_findings.json and avoided in the main batch by an 'oversize' generator switch; a dedicated batch reproduces it on every run."),
  "C01": ("exploration", "DESIGN.md §4 C01",
          "deterministic simulation: whole SMTP->manager->store path on a simulated network (seeded segmentation, delay, buffers, cuts), 1-3 concurrent reply-driven clients, per-run configuration swarm; conservation oracle over ALL mailboxes at quiescence against reference naming/policy models",
          "Seeded search over SMTP dialogues x configurations x connection behaviour; what the store holds at the end must equal what the replies promised (exactly one copy per accepted, storable recipient of every 250-acknowledged transaction, nothing for refused/reset/incomplete ones, nothing in any other mailbox).",
@@ -39,7 +39,7 @@ CHECKS = {
  "C03": ("fault_enumeration", "DESIGN.md §4 C03",
          "deterministic simulation with fault enumeration: SMTP session vs a reference state machine line by line (exactly one well-formed reply, sequencing constraints), connection cut (FIN/RST) at enumerated byte offsets of valid dialogues, client stalls past the idle timeout; store checked afterwards",
          "Per sampled dialogue the cut offsets are enumerated (quick: 14-33 seeded offsets + both ends; thorough: every byte offset for 1/12 of the dialogues); command histories are seeded samples from a grammar including malformed, over-long and binary lines.",
-         "TLS never enabled. The reference state machine constrains acceptance only in the direction the statement gives. Transfers slower than the idle timeout are outside the workload (see DESIGN observations). Command histories optionally run next to a second session delivering valid mail, or (file back-end) with a disk error or stall while one message is stored followed by another transaction on the same connection; mode P writes a valid dialogue ahead of the replies (whole, per transaction, or up to DATA) and demands one reply per line, the same acceptance as step by step, and the acknowledged messages stored."),
+         "TLS never enabled. The reference state machine constrains acceptance only in the direction the statement gives. Transfers slower than the idle timeout are outside the workload (see DESIGN observations). Command histories optionally run next to a second session delivering valid mail, or (file back-end) with a disk error or a stall (up to 1.5 idle timeouts: the timeout is about a silent client, not a slow server) while one message is stored followed by another transaction on the same connection; mode P writes a valid dialogue ahead of the replies (whole, per transaction, or up to DATA) and demands one reply per line, the same acceptance as step by step, and the acknowledged messages stored."),
  "C12": ("exploration", "DESIGN.md §4 C12",
          "deterministic simulation on a simulated clock: real RetentionScanner (DoScan and the Start/Join loop) over both real stores, racing deliveries/removals at seeded simulated instants or at the very moment of the scan, with and without cap / size limit, cancellation (after which a scan with a pause between mailboxes may touch at most two more mailboxes) at a seeded instant; recording Store wrapper gives scan windows and removals for the oracle",
          "Seeded search over age distributions around the cutoff (+-1ns, +-1s, ...), periods, sleeps, back-ends, racers and cancellation times; hours of simulated time per run cost microseconds.",
